@@ -322,9 +322,22 @@ def exportations (paths : List Name) (imps : List (Name × List Name)) :
 
 /-! ## Inverted indexes and span preparation -/
 
-/-- `collect_labels` / `collect_taxa` on the (name, path) occurrences in program order. -/
+/-- `collect_taxa` on the (name, path) occurrences in program order (`collect_labels` before fix F47). -/
 def collect (occ : List (Name × Name)) : List (Name × List Name) :=
   occ.foldl (fun d o => push d o.1 o.2) []
+
+/-- `if program.path not in result[label.name][-1:]: result[label.name].append(program.path)` -/
+def addNew (vs : List Name) (v : Name) : List Name := if vs.getLast? = some v then vs else vs ++ [v]
+
+def pushNew (d : List (Name × List Name)) (k v : Name) : List (Name × List Name) :=
+  match d with
+  | [] => [(k, [v])]
+  | (k', vs) :: t => if k' = k then (k', addNew vs v) :: t else (k', vs) :: pushNew t k v
+
+/-- `collect_labels` (fix F47): a program whose parser result holds several entries of one name (a hinted
+label bearing the name of a derived one) is listed once under that name. -/
+def collectNew (occ : List (Name × Name)) : List (Name × List Name) :=
+  occ.foldl (fun d o => pushNew d o.1 o.2) []
 
 def labelOcc (progs : List (Name × List Label)) : List (Name × Name) :=
   progs.flatMap fun p => p.2.map fun l => (l.name, p.1)
@@ -335,8 +348,16 @@ def taxonOcc (progs : List (Name × List Taxon)) : List (Name × Name) :=
 /-- `[(span.start, span.end) for span in sorted(set(spans))]` -/
 def preparedSpans (spans : List Span3) : List PoorSpan := (sortU spans).map Span3.poor
 
+/-- `bags.setdefault(label_name, set()).update(spans)`: the spans of all the entries bearing one name,
+at the position of the first entry of that name (fix F47: a hinted label may bear the name of a label
+that an SQL query also derives; `ProgramParser.__call__` then returns two entries of that name). -/
+def labelBags (ls : List Label) : List (Name × List Span3) :=
+  ls.foldl (fun d l => set d l.name ((get? d l.name).getD [] ++ l.spans)) []
+
+/-- `prepared_labels`: one key per label name, with the sorted distinct spans of ALL the entries of
+that name, projected on (start, end). -/
 def preparedLabels (ls : List Label) : List (Name × List PoorSpan) :=
-  ls.foldl (fun d l => set d l.name (preparedSpans l.spans)) []
+  (labelBags ls).map fun e => (e.1, preparedSpans e.2)
 
 def preparedTaxa (ts : List Taxon) : List (Name × List PoorSpan) :=
   ts.foldl (fun d t => set d t.name (preparedSpans t.spans)) []
@@ -370,7 +391,7 @@ def makeDb (toTaxa : Name → List Label → List Taxon) (progs : List Prog) : E
   | .error e => .error e
   | .ok exps =>
     .ok { programs := progs.foldl (fun d p => set d p.path (recordOf toTaxa (internalOf progs) p)) []
-          labels := sortKeys (collect (labelOcc lab))
+          labels := sortKeys (collectNew (labelOcc lab))
           taxa := sortKeys (collect (taxonOcc (taxaed toTaxa progs)))
           importations := imps
           exportations := exps }
